@@ -427,12 +427,14 @@ SYNC_OPS = [
     ['read_until', b'-', -1, False], ['read_until', b'-', -1, True], ['read_until', b'ab', -1, False],
     ['read_until', b'-', 1, False], ['read_until', b'ab', 2, True], ['pipe_until', b'-', True],
     ['readline', -1], ['exhaust'], ['delimit', b'-', [['read', 1]]], ['delimit', b'b', [['read_until', b'a', 2, False]]],
+    ['read_until', b'--b', 2, False], ['read_until', b'a-b', -1, True],
 ]
 ASYNC_OPS = [
     ['read', 1], ['read', 2], ['read', -1], ['peek', 1], ['peek', 9],
     ['read_until', b'-', -1, False], ['read_until', b'-', -1, True], ['read_until', b'ab', -1, False],
     ['read_until', b'-', 1, False], ['read_until', b'ab', 2, True], ['pipe_until', b'-', True],
     ['pipe_until', b'ab', False], ['exhaust'], ['delimit', b'-', [['read', 1]]], ['delimit', b'b', [['read_until', b'a', 2, False]]],
+    ['read_until', b'--b', 2, False], ['read_until', b'a-b', -1, True],
 ]
 
 
@@ -458,7 +460,7 @@ def _enum(tier, ops_alpha, maxlen_deltas):
 
 
 class SyncEnum(Suite):
-    """Sync BufferedReader: ALL histories of <= 2 (quick) / <= 3 (thorough) operations from a 15-operation
+    """Sync BufferedReader: ALL histories of <= 2 (quick) / <= 3 (thorough) operations from a 17-operation
     alphabet (reads, peeks, delimited reads with/without size cap and delimiter consumption, pipe_until,
     readline, exhaust, two nested delimit() forms) x all data strings of length <= 4/5 over {a, b, -} x
     chunk sizes 1-3 x two short-read patterns, compared step by step with the cursor model."""
@@ -499,7 +501,7 @@ class AsyncEnum(Suite):
 
 # ------------------------------------------------------------------ random histories
 
-_DELIMS = [b'-', b'\n', b'b', b'ab', b'--', b'-a', b'\n-', b'a-b', b'-ab', b'ab-a']
+_DELIMS = [b'-', b'\n', b'b', b'ab', b'--', b'-a', b'\n-', b'a-b', b'-ab', b'ab-a', b'--b', b'-a-', b'a-b', b'--b', b'b--a']
 
 
 def _ops(kind, chunk_size, depth):
@@ -528,7 +530,7 @@ def _ops(kind, chunk_size, depth):
 @st.composite
 def _case(draw, kind):
     chunk_size = draw(st.sampled_from([1, 1, 2, 2, 3, 3, 4, 5, 8, None]))
-    data = draw(st.lists(st.sampled_from([b'a', b'b', b'-', b'\n', b'ab', b'--', b'-a', b'a-b']), max_size=16).map(b''.join))
+    data = draw(st.lists(st.sampled_from([b'a', b'b', b'-', b'\n', b'ab', b'--', b'-a', b'a-b', b'--b', b'-a-', b'b--a', b'a--']), max_size=16).map(b''.join))
     rep = draw(st.sampled_from([1, 1, 1, 1, 1, 1, 2, 40]))
     data = data * rep
     if kind == 'sync':
